@@ -50,3 +50,12 @@ reg('C17', engine='llsym',
     note='Trusted: clang IR, llsym semantics, CPython contracts (PyObject_RichCompare/Hash uninterpreted). '
          'long double/complex/wide-char primitives not covered.',
     technique='symbolic execution of LLVM IR, SMT (z3 bit-vectors + FP + uninterpreted functions)')
+
+reg('C18', engine='llsym',
+    text='Differential bounded symbolic execution: the real b_unpack (every casenum fast path) and the real '
+         'convert_to_object are run on the same symbolic memory; z3 proves element i of the result equals p[i] '
+         '(or both raise the same exception) for all item bytes, any alignment field, every misalignment 0..7.',
+    note='Trusted: clang IR, llsym semantics, CPython constructor contracts (PyLong_From*, PyFloat_FromDouble, '
+         'PyList_New, PyBytes_FromStringAndSize). Length bounded (2 quick / 4 thorough); wide-char, long double '
+         'and complex item types not covered.',
+    technique='differential symbolic execution of LLVM IR, SMT (z3 bit-vectors + FP)')
